@@ -35,6 +35,7 @@ class Cfg:
         self.forward_jumps_only = False      # jumps/calls go to later top-level labels of the routine or to other routines
         self.small_alphabet = False
         self.ctx_ctrl = False                # jumps, calls and control statements as the statement of a with-block
+        self.ctx_term = False                # return / end / hold as the statement of a with-block (it does not end the routine)
         for k, v in kw.items():
             setattr(self, k, v)
 
@@ -44,7 +45,7 @@ class Gen:
         self.r = rng
         self.c = cfg or Cfg()
         # (a generator of its own, not drawn from rng: programs without ctx_ctrl are the same as before)
-        self._wr = random.Random(str(rng.getstate()[1][:8])) if (cfg is not None and cfg.ctx_ctrl) else None
+        self._wr = random.Random(str(rng.getstate()[1][:8])) if (cfg is not None and (cfg.ctx_ctrl or cfg.ctx_term)) else None
         self.all_labels: list[str] = []
         self.pending: list[str] = []  # labels of the current routine not yet defined
         self.stats: dict[str, int] = {}
@@ -195,7 +196,11 @@ class Gen:
                 return st
             if y < 0.80:
                 self.count("terminator")
-                return pre + [wrap([A("ctrl"), A(self.r.choice(["return", "end", "hold"]))])]
+                t = [A("ctrl"), A(self.r.choice(["return", "end", "hold"]))]
+                if self.c.ctx_term and not self.c.ctx_ctrl and self.c.ctx and self._wr.random() < 0.45:
+                    self.count("with-terminator")
+                    return pre + [[A("with"), self._wr.choice(["actor", "object", "performer"]), [A("i"), self._wr.randrange(0, 9)], t]]
+                return pre + [wrap(t)]
             if y < 0.88 and self.c.labels and self.all_labels:
                 self.count("jump")
                 return pre + [wrap([A("jump"), self.r.choice(self.all_labels)])]
